@@ -365,18 +365,26 @@ theorem typeObject_ok (R S) (ctx : List (PyVal × PyVal)) (kvs : List (PyVal × 
     jsKws R S ctx [kw "type" (.str "object")] (.dict kvs) = true := by
   simp [jsKws, kw, kwOf, kwOfStr, kwNode, kwLeaf, typeOk, typeIs]
 
-theorem sizeKws_obj (R S) (ctx : List (PyVal × PyVal)) (sz : SizeOpts) (kvs : List (PyVal × PyVal)) :
-    jsKws R S ctx (optKw "maxItems" (sz.max.map natJ)) (.dict kvs) = true
-      ∧ jsKws R S ctx (optKw "minItems" (sz.min.map natJ)) (.dict kvs) = true := by
+theorem sizeKws_obj (R S) (ctx : List (PyVal × PyVal)) (sz : SizeOpts) (kvs : List (PyVal × PyVal))
+    (hsz : sizeOk sz kvs.length = true) :
+    jsKws R S ctx (optKw "maxProperties" (sz.max.map natJ)) (.dict kvs) = true
+      ∧ jsKws R S ctx (optKw "minProperties" (sz.min.map natJ)) (.dict kvs) = true := by
+  simp only [sizeOk, and_true_iff'] at hsz
   constructor
   · cases h : sz.max with
     | none => rfl
-    | some n => simp [Option.map, optKw, jsKws, kw, kwOf, kwOfStr, kwNode, kwLeaf]
+    | some n =>
+      simp only [Option.map, optKw]
+      simp [jsKws, kw, kwOf, kwOfStr, kwNode, kwLeaf, natOf_natJ]
+      simpa [leLen, h] using hsz.2
   · cases h : sz.min with
     | none => rfl
-    | some n => simp [Option.map, optKw, jsKws, kw, kwOf, kwOfStr, kwNode, kwLeaf]
+    | some n =>
+      simp only [Option.map, optKw]
+      simp [jsKws, kw, kwOf, kwOfStr, kwNode, kwLeaf, natOf_natJ]
+      simpa [geLen, h] using hsz.1
 
-theorem jsV_mapAny (R S) (sz : SizeOpts) (kvs : List (PyVal × PyVal)) :
+theorem jsV_mapAny (R S) (sz : SizeOpts) (kvs : List (PyVal × PyVal)) (hsz : sizeOk sz kvs.length = true) :
     jsV R S (.dict (mapKws none none sz)) (.dict kvs) = true := by
   have href : getKw "$ref" (mapKws none none sz) = none := by
     simp [mapKws, getKw_append, getKw_optKw, getKw, kw, keyIs]
@@ -384,7 +392,7 @@ theorem jsV_mapAny (R S) (sz : SizeOpts) (kvs : List (PyVal × PyVal)) :
   suffices h : ∀ ctx, jsKws R S ctx (mapKws none none sz) (.dict kvs) = true from h _
   intro ctx
   simp only [mapKws, jsKws_append, and_true_iff']
-  have h2 := sizeKws_obj R S ctx sz kvs
+  have h2 := sizeKws_obj R S ctx sz kvs hsz
   exact ⟨⟨⟨typeObject_ok R S ctx kvs, rfl⟩, h2.1⟩, h2.2⟩
 
 theorem all_filter_of_all {α} (p q : α → Bool) (xs : List α) (h : xs.all q = true) :
@@ -395,7 +403,7 @@ theorem all_filter_of_all {α} (p q : α → Bool) (xs : List α) (h : xs.all q 
 
 /-- `Map[String(constraints), V]`: `patternProperties: {<pattern>: <schema of V>}` -/
 theorem jsV_mapPat (R S) (k : FieldDecl) (s : PyVal) (sz : SizeOpts) (kvs : List (PyVal × PyVal))
-    (hk : (mapKeyPattern k != "") = true)
+    (hk : (mapKeyPattern k != "") = true) (hsz : sizeOk sz kvs.length = true)
     (hall : kvs.all (fun kv => jsV R S s kv.2) = true) :
     jsV R S (.dict (mapKws (some k) (some s) sz)) (.dict kvs) = true := by
   have href : getKw "$ref" (mapKws (some k) (some s) sz) = none := by
@@ -404,7 +412,7 @@ theorem jsV_mapPat (R S) (k : FieldDecl) (s : PyVal) (sz : SizeOpts) (kvs : List
   suffices h : ∀ ctx, jsKws R S ctx (mapKws (some k) (some s) sz) (.dict kvs) = true from h _
   intro ctx
   simp only [mapKws, hk, if_true, jsKws_append, and_true_iff']
-  have h2 := sizeKws_obj R S ctx sz kvs
+  have h2 := sizeKws_obj R S ctx sz kvs hsz
   refine ⟨⟨⟨typeObject_ok R S ctx kvs, ?_⟩, h2.1⟩, h2.2⟩
   simp only [jsKws, kw, kwOf, kwOfStr, kwNode, jsPatsV, jsPats, docKey, Bool.and_true]
   simp
@@ -415,7 +423,7 @@ theorem jsV_mapPat (R S) (k : FieldDecl) (s : PyVal) (sz : SizeOpts) (kvs : List
 
 /-- `Map[String, V]` with an unconstrained key: `additionalProperties: <schema of V>` -/
 theorem jsV_mapOf (R S) (k : FieldDecl) (s : PyVal) (sz : SizeOpts) (kvs : List (PyVal × PyVal))
-    (hk : mapKeyPattern k = "") (hs : dictOrNone s = true)
+    (hk : mapKeyPattern k = "") (hs : dictOrNone s = true) (hsz : sizeOk sz kvs.length = true)
     (hall : kvs.all (fun kv => jsV R S s kv.2) = true) :
     jsV R S (.dict (mapKws (some k) (some s) sz)) (.dict kvs) = true := by
   have href : getKw "$ref" (mapKws (some k) (some s) sz) = none := by
@@ -424,7 +432,7 @@ theorem jsV_mapOf (R S) (k : FieldDecl) (s : PyVal) (sz : SizeOpts) (kvs : List 
   suffices h : ∀ ctx, jsKws R S ctx (mapKws (some k) (some s) sz) (.dict kvs) = true from h _
   intro ctx
   simp only [mapKws, hk, jsKws_append, and_true_iff']
-  have h2 := sizeKws_obj R S ctx sz kvs
+  have h2 := sizeKws_obj R S ctx sz kvs hsz
   refine ⟨⟨⟨typeObject_ok R S ctx kvs, ?_⟩, h2.1⟩, h2.2⟩
   have hx : (extraMembers S ctx kvs).all (fun kv => jsV R S s kv.2) = true := by
     unfold extraMembers
